@@ -118,7 +118,15 @@ pub fn check_decode(d: &Decoders, i: usize, b: &[u8], diff: bool) -> CheckResult
             return Err(Violation::new("decode", format!("C02 decoder={name} kind=remainder-not-a-suffix"), format!("decoder {name} on {} returned a remainder that is not a suffix of the input", clip(&hex(b), 400)), input()));
         }
         if diff && i < d.tys.len() {
-            if let Ok((rv, rrest)) = decode(&d.t, &d.t[d.tys[i].name], b) {
+            let exact = decode(&d.t, &d.t[d.tys[i].name], b);
+            // a number that does not fit its field (BCD digits beyond the integer, an impossible date / time) is an error
+            // for the exact reading: accepting the packet means the number was wrapped or truncated into range
+            if let Err(DErr::Bad(why)) = &exact {
+                if why == "bcd overflow" || why == "calendar" {
+                    return Err(Violation::new("decode", format!("C02 decoder={name} kind=accepts-number-that-does-not-fit"), format!("decoder {name} on {}\n  gives  {}\n  the exact (u128, independent) reading rejects the packet: {why}", clip(&hex(b), 400), clip(&d.outcome(i, b), 500)), input()));
+                }
+            }
+            if let Ok((rv, rrest)) = exact {
                 let real = d.outcome(i, b);
                 let want = format!("Ok({}) rest={}", render(&rv), rrest.len());
                 if real != want {
@@ -391,7 +399,36 @@ pub fn apply_mutation(t: &Table, l: &Layout, v: &Val, m: &Mutation, pool: &[Vec<
                 let mut p = vec![0x1f, 0x0e];
                 let date = vec![g(0, 100), g(1, 100), g(2, 20), g(3, 40)];
                 let time = vec![g(4, 30), g(5, 70), g(6, 70)];
-                match m.a % 6 {
+                // digits of a number as packed BCD (even number of digits)
+                let bcd_of = |mut n: u128| -> Vec<u8> {
+                    let mut d = vec![];
+                    while n > 0 {
+                        d.push((n % 10) as u8);
+                        n /= 10;
+                    }
+                    if d.len() % 2 == 1 {
+                        d.push(0);
+                    }
+                    d.reverse();
+                    d.chunks(2).map(|c| c[0] << 4 | c[1]).collect()
+                };
+                let dec = |b: u8| (b >> 4) as u128 * 10 + (b & 15) as u128;
+                // wrap-around aliases: the hour / the year plus k * 2^8, 2^16, 2^32 (a number that does not fit must be an
+                // error, not a value truncated into range)
+                let shift = [8u32, 16, 32, 32][(m.b % 4) as usize];
+                let k = 1 + (m.b / 4 % 3) as u128;
+                match m.a % 8 {
+                    6 => {
+                        let t = (dec(time[0]) + (k << shift)) * 10_000 + dec(time[1]) * 100 + dec(time[2]);
+                        let tb = bcd_of(t);
+                        p.push(4); p.extend(&date); p.extend([0x1f, 0x0f, tb.len() as u8]); p.extend(&tb);
+                    }
+                    7 => {
+                        let y = dec(date[0]) * 100 + dec(date[1]);
+                        let d = (y + (k << shift)) * 10_000 + dec(date[2]) * 100 + dec(date[3]);
+                        let db = bcd_of(d);
+                        p.push(db.len() as u8); p.extend(&db); p.extend([0x1f, 0x0f, 3]); p.extend(&time);
+                    }
                     0 => { p.push(4); p.extend(&date); p.extend([0x1f, 0x0f, 3]); p.extend(&time); }
                     1 => { p.push(5); p.push(0x99); p.extend(&date); p.extend([0x1f, 0x0f, 3]); p.extend(&time); }
                     2 => { p.push(4); p.extend(&date); p.extend([0x1f, 0x0f, 5, 0x99, 0x99]); p.extend(&time); }
@@ -704,7 +741,21 @@ pub fn run(tier: Tier) -> i32 {
             rec(&d.t, e.name, &mut v);
             v
         };
-        let kinds: Vec<u8> = if has_bcd { vec![0, 1, 2, 2, 3, 4, 5, 6, 7, 8, 9] } else { vec![0, 1, 4, 5, 6, 7, 8, 9] };
+        let has_datetime = {
+            let mut v = false;
+            fn rec(t: &Table, n: &str, v: &mut bool) {
+                for f in &t[n].fields {
+                    match &f.enc {
+                        Enc::DateTime => *v = true,
+                        Enc::Struct(s) => rec(t, s, v),
+                        _ => {}
+                    }
+                }
+            }
+            rec(&d.t, e.name, &mut v);
+            v
+        };
+        let kinds: Vec<u8> = if has_datetime { vec![0, 1, 2, 2, 3, 3, 3, 3, 3, 3, 4, 5, 6, 7, 8, 9] } else if has_bcd { vec![0, 1, 2, 2, 3, 4, 5, 6, 7, 8, 9] } else { vec![0, 1, 4, 5, 6, 7, 8, 9] };
         let mstrat = (proptest::sample::select(kinds), any::<u16>(), any::<u16>(), any::<u16>(), proptest::collection::vec(any::<u8>(), 0..12)).prop_map(|(kind, sel, a, b, bytes)| Mutation { kind, sel, a, b, bytes });
         let strat = (strategy_for(&d.t, e.name, GenCfg { vec_max: 3, text_max: 30, blob_max: 30 }), mstrat, any::<u16>());
         ctx.proptest(seed, per_type / parts as u32, &strat, st, |(v, m, other), st| {
@@ -803,7 +854,7 @@ pub fn run(tier: Tier) -> i32 {
     ];
     ctx.finish(
         stats,
-        "layer 1 exhaustive small inputs; layer 2 deterministic corpus mutation (corpus = captured blobs + reference-encoded generated values per type; each mutant through its own decoder, all 17 reply parsers and rotating other decoders); layer 3 proptest structure-aware mutations (length announcements and BER forms, digit overflow, calendar values, group delete/duplicate/splice, APDU length, truncation, byte flips). Oracle per call: no panic (overflow checks on), allocation <= 200*len + 16 KiB (hard cap 512 MiB), remainder is a suffix, result equals the exact u128 reference reading when both accept, checked and release builds give identical outcomes. non-trivial = the decoder got past its control-field / first-byte check; distinct by (decoder, input)",
+        "layer 1 exhaustive small inputs; layer 2 deterministic corpus mutation (corpus = captured blobs + reference-encoded generated values per type; each mutant through its own decoder, all 17 reply parsers and rotating other decoders); layer 3 proptest structure-aware mutations (length announcements and BER forms, digit overflow incl. digit strings right at the overflow limit, calendar values incl. hour / year plus k*2^8 / 2^16 / 2^32 (wrap-around aliases), group delete/duplicate/splice, APDU length, truncation, byte flips). Oracle per call: no panic (overflow checks on), allocation <= 200*len + 16 KiB (hard cap 512 MiB), remainder is a suffix, result equals the exact u128 reference reading when both accept, a packet the exact reading rejects because a number does not fit (BCD overflow, impossible date / time) is not accepted, checked and release builds give identical outcomes. non-trivial = the decoder got past its control-field / first-byte check; distinct by (decoder, input)",
         &["the reference decoder (refc.rs) is the exact reading for oracle (d); inputs it rejects give no differential verdict", "the coverage-guided layer (libFuzzer target fuzz/decode_any) runs in the thorough tier only"],
         false,
     )
